@@ -633,6 +633,23 @@ func (e *Enc) contractCallSig(fr *Frame, fc *FuncContract, callee *ssa.Function,
 		e.addObl("pre", fmt.Sprintf("%s%s:%s", e.framePrefix(fr), strings.TrimPrefix(label, "call:"), lbl), cur.reach, t.T, pos, c.Text)
 		e.assumeIf(cur.reach, t.T)
 	}
+	// monitors the callee expects to be held: invariant must hold now (and holds again after)
+	var heldInv []func(st *St) []string
+	for _, h := range fc.Holds {
+		m, owner := e.heldMonitorArgs(callee, args, h)
+		if m == nil {
+			continue
+		}
+		mm, oo := m, owner
+		for i, inv := range e.monitorInv(mm, oo, pre) {
+			lbl := mm.Inv[i].Label
+			if lbl == "" {
+				lbl = fmt.Sprint(i + 1)
+			}
+			e.addObl("monitor", fmt.Sprintf("%s%s.%s:%s@call:%s", e.framePrefix(fr), mm.Struct, mm.Mutex, lbl, strings.TrimPrefix(label, "call:")), cur.reach, inv, pos, mm.Inv[i].Text)
+		}
+		heldInv = append(heldInv, func(st *St) []string { return e.monitorInv(mm, oo, st) })
+	}
 	// frame: havoc modifies
 	post := cur.st
 	if (fc.NoFrame || !fc.HasMod) && !fc.Pure {
@@ -668,6 +685,11 @@ func (e *Enc) contractCallSig(fr *Frame, fc *FuncContract, callee *ssa.Function,
 		rvals = res.Tup
 	} else if res.S != "Unit" {
 		rvals = []Val{res}
+	}
+	for _, f := range heldInv {
+		for _, inv := range f(post) {
+			e.assumeIf(cur.reach, inv)
+		}
 	}
 	for _, c := range fc.GhostEffects {
 		t, err := e.evalSpec(c.Expr, &SpecCtx{e: e, pkg: fc.Pkg, pos: fcPos(callee), params: env, cur: post, old: pre, results: rvals, sig: sig, fc: fc})
@@ -795,4 +817,29 @@ func nilSafeMethod(fn *ssa.Function) bool {
 		return ok && c.Value == nil
 	}
 	return (isRecv(bo.X) && isNil(bo.Y)) || (isRecv(bo.Y) && isNil(bo.X))
+}
+
+// heldMonitorArgs resolves "holds Struct.mutex[@param]" of a callee contract against call arguments.
+func (e *Enc) heldMonitorArgs(callee *ssa.Function, args []Val, h string) (*Monitor, string) {
+	ownerName := ""
+	if i := strings.Index(h, "@"); i >= 0 {
+		ownerName = h[i+1:]
+		h = h[:i]
+	}
+	for _, m := range e.cs.Monitors {
+		if m.Struct+"."+m.Mutex != h {
+			continue
+		}
+		if callee == nil || len(args) == 0 {
+			return nil, ""
+		}
+		owner := args[0].T
+		for i, p := range callee.Params {
+			if p.Name() == ownerName && i < len(args) {
+				owner = args[i].T
+			}
+		}
+		return m, owner
+	}
+	return nil, ""
 }
